@@ -29,7 +29,7 @@ type State struct {
 	pc    []*Term
 	store map[string]Value
 	epoch *Epoch
-	after map[string]*State // the state right after the most recent contracted call of each function on this path (aftercall)
+	after map[string]*State // the state right after the most recent contracted call of each function on this path (aftercall); key "<f" = right before it (beforecall)
 }
 
 func newState() *State { return &State{store: map[string]Value{}, epoch: entryEpoch} }
